@@ -2100,6 +2100,17 @@ pub fn apply_bug(s: &mut SpriteSpec, bug: &str, r: &mut Rng, scale: usize) -> St
             // one big, highly compressible, truthfully declared cel and many cels linked to it
             let side = (scale.clamp(1, 128) * 64) as u16;
             let nlinks = 48usize;
+            if scale >= 64 {
+                // the dedicated "well above 64 MiB" image: 4 bytes per pixel whatever the seed drew
+                s.fmt = Fmt::Rgba;
+                s.tilesets.clear();
+                for l in &mut s.layers {
+                    if l.kind == 2 {
+                        l.kind = 0;
+                    }
+                }
+            }
+            let bpp = s.fmt.bpp();
             s.durations = vec![100; nlinks + 1];
             s.tags.clear();
             s.tag_ud_count = 0;
